@@ -163,6 +163,7 @@ class AclMachine(Machine):
             members_known=w.random() < 0.8,
             two_clients=w.random() < 0.2,
             share_items=self.prop in ("C15", "C17") and w.random() < 0.25,
+            log_level=w.choice(["DEBUG", "WARNING"]),
             from_config=w.random() < 0.2,
         )
         bias = BIAS.get(self.prop)
@@ -190,7 +191,7 @@ class AclMachine(Machine):
         self.cfg = cfg
         self.ids.install()
         self.memo.install()
-        self.log.install()
+        self.log.install(cfg.get("log_level", "DEBUG"))
         if cfg.get("memo_size", "shipped") != "shipped" and self.memo.present:
             self.memo.resize(cfg["memo_size"])
             self.memo.fired["resize"] = 0
